@@ -36,16 +36,17 @@ type Info struct {
 }
 
 type pullRun struct {
-	c        *PullCase
-	env      PullEnv
-	dir      string
-	reg      *Reg
-	classes  map[string]bool
-	linkedOK map[string]bool   // manifest hex -> a pull of this manifest has reported success
-	holes    map[string]string // blob hex -> how a failed attempt left it at full length with wrong bytes
-	cursor   map[int]int       // attempt index -> next act
-	audited  map[int]bool      // attempts already post-processed
-	nt       bool
+	c             *PullCase
+	env           PullEnv
+	dir           string
+	reg           *Reg
+	classes       map[string]bool
+	linkedOK      map[string]bool   // manifest hex -> a pull of this manifest has reported success
+	holes         map[string]string // blob hex -> how a failed attempt left it at full length with wrong bytes
+	cursor        map[int]int       // attempt index -> next act
+	audited       map[int]bool      // attempts already post-processed
+	auditedFailed map[int]bool      // ... as failed
+	nt            bool
 }
 
 func (p *pullRun) class(s string) { p.classes[s] = true }
@@ -123,7 +124,7 @@ func RunPull(c PullCase, env PullEnv) (info Info, err error) {
 	finals := 0
 	for round := 0; ; round++ {
 		before := p.reg.Started()
-		final := before >= len(c.Attempts)
+		final := before >= c.scripted()
 		ctx, cancel := context.WithCancel(context.Background())
 		p.reg.Note("round %d begins (final=%v)", round, final)
 		done := drv.Begin(ctx)
@@ -151,7 +152,7 @@ func RunPull(c PullCase, env PullEnv) (info Info, err error) {
 				break
 			}
 		}
-		if round > len(c.Attempts)+6 {
+		if round > c.scripted()+6 {
 			break
 		}
 	}
@@ -270,10 +271,19 @@ func (p *pullRun) markerExists(layerHex string, e Entry) bool {
 
 // afterAttempt classifies an ended attempt and applies the per-attempt oracles.
 func (p *pullRun) afterAttempt(a *attemptState, res error, final bool) error {
-	if a == nil || p.audited[a.idx] {
+	// An attempt that was judged failed when the caller's retry loop paused (internal retry) is judged again if the
+	// request then ends in success without another attempt: the loop gave up and reported success anyway.
+	if a == nil || (p.audited[a.idx] && !(res == nil && p.auditedFailed[a.idx])) {
 		return nil
 	}
+	if p.audited[a.idx] {
+		p.class("success_reported_after_failed_last_attempt")
+	}
 	p.audited[a.idx] = true
+	if p.auditedFailed == nil {
+		p.auditedFailed = map[int]bool{}
+	}
+	p.auditedFailed[a.idx] = res != nil
 	v := a.version
 	p.classify(a, res)
 	if res == nil {
